@@ -37,6 +37,18 @@ unsigned char vfd_dq_data[VS_NFD][VS_DQ][VS_CAP];
 
 static int vs_fail(int e) { vs_errno = e; vs.last_fail_errno = e; return -1; }
 
+/* a GENUINE would-block: the kernel state does not let the operation proceed now (not an injected spurious EAGAIN) */
+static int vs_wb(int e) { vs.wb_seen = 1; return vs_fail(e); }
+
+/* Safety monitor at the entry of every transfer / accept / connect / poll: when the harness has declared the
+ * current library call as made on a NON-BLOCKING socket (vs.nb_call) and the kernel has already answered it
+ * with a genuine would-block, the call has to return - any further attempt or wait is a violation.  Decided
+ * at the 2nd attempt, independent of loop bounds (a spinning retry loop would otherwise only trip an
+ * unwinding assertion = inconclusive). */
+static void vs_nb_entry(void) {
+  if (vs.nb_call && vs.wb_seen) VASSERT(0, "non-blocking call must not retry or wait after the kernel reported would-block");
+}
+
 void vs_reset(void) {
   /* statics are zero-initialised; only the non-zero defaults */
   for (int i = 0; i < VS_NFD; i++) { vfd_peer[i] = -1; }
@@ -93,6 +105,7 @@ void vs_begin_call(int faults, int mask) {
   vs.fault_budget = faults; vs.fault_mask = mask;
   vs.npoll = 0; vs.npoll_inf = 0; vs.poll_tmo_min = 0x7fffffff; vs.poll_tmo_max = -1;
   vs.last_poll_zero = 0; vs.last_fail_errno = 0;
+  vs.nb_call = 0; vs.wb_seen = 0;
   vs.xfer_calls = 0; vs.xfer_ptr = 0; vs.xfer_len = 0; vs.xfer_ret = 0; vs.xfer_flags = 0; vs.xfer_fd = -1;
 }
 
@@ -341,7 +354,7 @@ static int vsi_connect(const int i, const struct sockaddr *a, socklen_t l) {
     return 0;
   }
   if (vfd_listening[i] || vfd_connected[i]) return vs_fail(EISCONN);
-  if (vfd_connecting[i]) return vs_fail(EALREADY);
+  if (vfd_connecting[i]) return vs_wb(EALREADY);
   /* an interrupted connect either did nothing yet or goes on asynchronously (POSIX) */
   if (f == VS_F_EINTR && !ND_BOOL()) return vs_fail(EINTR);
   for (int k = 0; k < VS_ALEN; k++) vfd_remote[i][k] = (socklen_t) k < l ? ((const unsigned char *) a)[k] : 0;
@@ -353,10 +366,10 @@ static int vsi_connect(const int i, const struct sockaddr *a, socklen_t l) {
     return 0;
   }
   vfd_connecting[i] = 1; vfd_so_error[i] = err;    /* becomes visible when the handshake completes (poll) */
-  return vs_fail(f == VS_F_EINTR ? EINTR : EINPROGRESS);
+  return f == VS_F_EINTR ? vs_fail(EINTR) : vs_wb(EINPROGRESS);
 }
 
-int vm_connect(int fd, const struct sockaddr *a, socklen_t l) { VS_DISPATCH(fd, vsi_connect(i_, a, l)); }
+int vm_connect(int fd, const struct sockaddr *a, socklen_t l) { vs_nb_entry(); VS_DISPATCH(fd, vsi_connect(i_, a, l)); }
 
 static int vsi_accept(const int i, struct sockaddr *a, socklen_t *l) {
   int f = vs_fault(VS_M_EINTR | VS_M_EAGAIN | VS_M_HARD);
@@ -367,7 +380,7 @@ static int vsi_accept(const int i, struct sockaddr *a, socklen_t *l) {
   if (!vfd_listening[i]) return vs_fail(EINVAL);
   if (vfd_npend[i] == 0) {
     if (!vfd_nonblock[i]) VASSUME(0);   /* blocking descriptor: waits */
-    return vs_fail(EAGAIN);
+    return vs_wb(EAGAIN);
   }
   if (vs_sysfail()) return vs_fail(EMFILE);
   int e = vfd_pend[i][0];
@@ -378,7 +391,7 @@ static int vsi_accept(const int i, struct sockaddr *a, socklen_t *l) {
   return VS_FD0 + e;
 }
 
-int vm_accept(int fd, struct sockaddr *a, socklen_t *l) { VS_DISPATCH(fd, vsi_accept(i_, a, l)); }
+int vm_accept(int fd, struct sockaddr *a, socklen_t *l) { vs_nb_entry(); VS_DISPATCH(fd, vsi_accept(i_, a, l)); }
 
 /* ------------------------------------------------------------------ transfer */
 
@@ -403,7 +416,7 @@ static ssize_t vs_stream_put(const int i, const int p, const unsigned char *buf,
   int space = VS_CAP - vfd_rx_len[p];
   if (space <= 0) {
     if (!vfd_nonblock[i]) VASSUME(0);
-    return vs_fail(EAGAIN);
+    return vs_wb(EAGAIN);
   }
   int k = n < (size_t) space ? (int) n : space;
   if (f == VS_F_SHORT) { int s = ND_RANGE(1, VS_CAP); VASSUME(s <= k); k = s; }
@@ -420,7 +433,7 @@ static ssize_t vsi_send(const int i, const void *b, size_t n, int flags, const s
   const unsigned char *buf = (const unsigned char *) b;
   if (vfd_type[i] == SOCK_STREAM) {
     if (vfd_shut_wr[i] || vfd_peer_gone[i]) { vs_sigpipe(flags); return vs_fail(EPIPE); }
-    if (vfd_connecting[i]) return vs_fail(EAGAIN);
+    if (vfd_connecting[i]) return vs_wb(EAGAIN);
     if (!vfd_connected[i]) return vs_fail(ENOTCONN);
     if (n == 0) return 0;
     for (int p_ = 0; p_ < VS_NFD; p_++) if (vfd_peer[i] == p_) return vs_stream_put(i, p_, buf, n, f);
@@ -443,9 +456,10 @@ static ssize_t vs_xfer(ssize_t r, int fd, const void *b, size_t n, int flags) {
   return r;
 }
 
-ssize_t vm_send(int fd, const void *b, size_t n, int flags) { VS_DISPATCH(fd, vs_xfer(vsi_send(i_, b, n, flags, NULL, 0), fd, b, n, flags)); }
+ssize_t vm_send(int fd, const void *b, size_t n, int flags) { vs_nb_entry(); VS_DISPATCH(fd, vs_xfer(vsi_send(i_, b, n, flags, NULL, 0), fd, b, n, flags)); }
 
 ssize_t vm_sendto(int fd, const void *b, size_t n, int flags, const struct sockaddr *a, socklen_t l) {
+  vs_nb_entry();
   VS_DISPATCH(fd, vs_xfer(vsi_send(i_, b, n, flags, a, l), fd, b, n, flags));
 }
 
@@ -463,7 +477,7 @@ static ssize_t vsi_recv(const int i, void *b, size_t n, int flags, struct sockad
       if (vfd_peer_eof[i] || vfd_shut_rd[i]) return 0;
       if (vfd_peer_gone[i]) return vs_fail(ECONNRESET);
       if (!vfd_nonblock[i]) VASSUME(0);
-      return vs_fail(EAGAIN);
+      return vs_wb(EAGAIN);
     }
     if (n == 0) return 0;
     int k = n < (size_t) vfd_rx_len[i] ? (int) n : vfd_rx_len[i];
@@ -475,7 +489,7 @@ static ssize_t vsi_recv(const int i, void *b, size_t n, int flags, struct sockad
   }
   if (vfd_dq_n[i] == 0) {
     if (!vfd_nonblock[i]) VASSUME(0);
-    return vs_fail(EAGAIN);
+    return vs_wb(EAGAIN);
   }
   int k = n < (size_t) vfd_dq_len[i][0] ? (int) n : vfd_dq_len[i][0];
   for (int x = 0; x < VS_CAP; x++) if (x < k) buf[x] = vfd_dq_data[i][0][x];
@@ -488,9 +502,10 @@ static ssize_t vsi_recv(const int i, void *b, size_t n, int flags, struct sockad
   return k;
 }
 
-ssize_t vm_recv(int fd, void *b, size_t n, int flags) { VS_DISPATCH(fd, vs_xfer(vsi_recv(i_, b, n, flags, NULL, NULL), fd, b, n, flags)); }
+ssize_t vm_recv(int fd, void *b, size_t n, int flags) { vs_nb_entry(); VS_DISPATCH(fd, vs_xfer(vsi_recv(i_, b, n, flags, NULL, NULL), fd, b, n, flags)); }
 
 ssize_t vm_recvfrom(int fd, void *b, size_t n, int flags, struct sockaddr *a, socklen_t *l) {
+  vs_nb_entry();
   VS_DISPATCH(fd, vs_xfer(vsi_recv(i_, b, n, flags, a, l), fd, b, n, flags));
 }
 
@@ -550,6 +565,7 @@ static int vsi_poll(const int i, struct pollfd *p, int timeout) {
 }
 
 int vm_poll(struct pollfd *p, nfds_t n, int timeout) {
+  vs_nb_entry();
   VASSERT(n == 1, "model: poll on exactly one descriptor");
   vs.npoll++; vs.last_poll_zero = 0;
   if (timeout < 0) vs.npoll_inf++;
